@@ -1,4 +1,5 @@
 (* C02 — Path parameters are exactly the substrings the pattern captured. Property theorems only. *)
+From Rux Require Import Base Str Consts Norm Chain Dispatch Reg Pattern Pat Cache Table PatTable RoundTrip SelectFacts TableLink Sys SysFacts SysHistory SysMore SysEnd.
 From Rux Require Import Base Rx RxFacts Pattern Pat PatFacts Cache Table TableFacts PatTable SelectFacts BuildFacts RoundTrip TableLink RestLookup.
 
 (* For every pattern of the documented grammar (any number of variables with default / global / custom
@@ -47,6 +48,35 @@ Theorem C02_router_params : forall o rs m p i r, o_caching o = false -> Forall w
   end.
 Proof. exact build_lookup_params. Qed.
 
+(* end to end (SysEnd.v): on a router built by a registration program whose routes are a printable table, after any
+   history of requests and with the cache on or off, when the rule selects entry i the request is dispatched to route i
+   of the program text and the parameters the handlers receive are: none for a static entry; for a dynamic entry exactly
+   what the declarative semantics of its pattern assigns on the normalised path *)
+Theorem C02_end_to_end : forall progs hooks o ss s es h m p path i sc pooled,
+  sys_build o ss = Ok s -> table_of es s -> o_intercept o = [] ->
+  hist_no_slash h -> no_slash m -> format_path (o_strict o) p = Ok path ->
+  ladder o (map entry_sroute es) m path = QFound i None ->
+  let s' := sys_run progs hooks s h in
+  exists r ps e,
+    nth_error (den_block (o_strict o) [] [] ss) i = Some r /\
+    nth_error es i = Some e /\
+    fst (quick_match (s_rt s') m p) = QFound i ps /\
+    entry_params e path ps /\
+    fst (sys_serve progs hooks s' m p sc pooled) =
+      Some (handle_request (sys_cfg progs hooks s) (str_eqb m OPTIONS) (route_target progs r (opt_params ps) p)
+              (p_x (ctx_init sc pooled))).
+Proof. exact sys_params. Qed.
+
+(* ... and the values are a decomposition of the path along the pattern, variable j bound to value j *)
+Theorem C02_end_to_end_values : forall progs hooks o ss s es h m p path i ms pp l,
+  sys_build o ss = Ok s -> table_of es s -> o_intercept o = [] ->
+  hist_no_slash h -> no_slash m -> format_path (o_strict o) p = Ok path ->
+  fst (quick_match (s_rt (sys_run progs hooks s h)) m p) = QFound i (Some l) ->
+  nth_error es i = Some (EDyn ms pp) ->
+  exists vs, pat_den (to_pat pp) path vs /\ List.length vs = List.length (pat_names (to_pat pp)) /\
+    forall j n, nth_error (pat_names (to_pat pp)) j = Some n -> assoc n l = Some (nth j vs []).
+Proof. exact sys_params_den. Qed.
+
 Print Assumptions C02_captures.
 Print Assumptions C02_params.
 Print Assumptions C02_unique.
@@ -54,3 +84,5 @@ Print Assumptions C02_matches_iff.
 Print Assumptions C02_static.
 Print Assumptions C02_cached.
 Print Assumptions C02_router_params.
+Print Assumptions C02_end_to_end.
+Print Assumptions C02_end_to_end_values.
